@@ -193,6 +193,7 @@ Inductive tcase :=
 | CEq (a b : jsnum) (obs : list bool)    (* representations of two produced values + what scripts observe *)
 | CStr (us : list Z) (r : jsnum)         (* Number(s) / +s / s*1 on a string of UTF-16 units *)
 | CStrAbs (us : list Z) (r : jsnum)      (* Math.abs(s) *)
+| CStrOp (o : unop) (us : list Z) (r : jsnum)   (* a unary operator / conversion applied to the string s: ToNumber(s) first *)
 | CPow (x y : Z) (r : jsnum)             (* x ** y / Math.pow(x, y) on integer operands, y >= 0 *)
 | CPInt (us : list Z) (radix : Z) (r : jsnum)   (* parseInt(s, radix) *)
 | CPFloat (us : list Z) (r : jsnum)      (* parseFloat(s) *)
@@ -200,17 +201,20 @@ Inductive tcase :=
 Arguments CStr us%Z_scope r.
 
 (* what scripts observe for a pair: Object.is(a,b), Object.is(b,a), a===b, b===a,
-   new Map([[a,1]]).get(b)===1, [a].includes(b), new Set([a]).has(b), ({[a]:1})[b]===1 *)
+   new Map([[a,1]]).get(b)===1, [a].includes(b), new Set([a]).has(b), ({[a]:1})[b]===1,
+   new Set([a,b]).size===1, one Map entry after set(a), set(b) *)
 Definition eq_spec (a b : jsnum) : list bool :=
   let x := num_sem (canon_of (val a)) in let y := num_sem (canon_of (val b)) in
   let sv := same_value_spec x y in let st := strict_eq_spec x y in let z := same_value_zero_spec x y in
-  [sv; sv; st; st; z; z; z; z].
+  [sv; sv; st; st; z; z; z; z; z; z].
 Definition eq_impl (a b : jsnum) : list bool :=
   let z := same_value_zero_spec (num_sem (canon_of (val a))) (num_sem (canon_of (val b))) in
   [sameAs a b; sameAs b a; strictEquals a b; strictEquals b a;
    sameValueZero a b && (hash (norm_zero a) =? hash (norm_zero b));
    sameAs (norm_zero b) (norm_zero a);   (* includes: search element and stored element normalised (fix a58f243) *)
-   sameValueZero a b && (hash (norm_zero a) =? hash (norm_zero b)); z].
+   sameValueZero a b && (hash (norm_zero a) =? hash (norm_zero b)); z;
+   sameValueZero a b && (hash (norm_zero a) =? hash (norm_zero b));      (* new Set([a,b]).size === 1 *)
+   sameValueZero a b && (hash (norm_zero a) =? hash (norm_zero b))].
 
 Definition bools_eqb (a b : list bool) : bool :=
   (length a =? length b)%nat && forallb (fun p => Bool.eqb (fst p) (snd p)) (combine a b).
@@ -223,6 +227,7 @@ Definition expected_S (c : tcase) : list jsnum * list bool :=
   | CEq a b _ => ([], eq_spec a b)
   | CStr us _ => ([canon_of (StringToNumber us)], [])
   | CStrAbs us _ => ([canon_of (fabs (StringToNumber us))], [])
+  | CStrOp o us _ => ([S_un o (canon_of (StringToNumber us))], [])
   | CPow x y _ => ([S_pow x y], [])
   | CPInt us radix _ => ([canon_of (S_parseInt us radix)], [])
   | CPFloat us _ => ([canon_of (S_parseFloat us)], [])
@@ -246,6 +251,7 @@ Definition check_case (c : tcase) : bool :=
   | CEq a b obs => bools_eqb obs (eq_spec a b)
   | CStr us r => jsnum_eqb r (canon_of (StringToNumber us))
   | CStrAbs us r => jsnum_eqb r (canon_of (fabs (StringToNumber us)))
+  | CStrOp o us r => jsnum_eqb r (S_un o (canon_of (StringToNumber us)))
   | CPow x y r => check_pow x y r
   | CPInt us radix r => check_parseInt us radix r
   | CPFloat us r => jsnum_eqb r (canon_of (S_parseFloat us))
